@@ -68,6 +68,7 @@ same_decision!(e_truthy_predicates, lifted_apply_table_local_predicates);
 same_decision!(e_truthy_predicates_parallel, lifted_apply_predicates_parallel);
 same_decision!(e_truthy_index_scan, lifted_apply_where_filter_zerocopy);
 same_decision!(e_truthy_index_scan_parallel, lifted_apply_where_filter_zerocopy_parallel);
+same_decision!(e_truthy_having, lifted_having);
 
 // ---------------------------------------------------------------------------------------------
 // S-cmpsort: compare_sql_values on same-variant values: antisymmetric, transitive, NULL greater than every non-NULL
